@@ -253,7 +253,9 @@ static void app_send(mx_ep *e, int serial)
     if (e->dead) return;
     mx_payload(p, PAYLEN, CONN_TAG, dir, serial);
     int idx = G.sendIdx; char f = (!G.forceClean && idx < G.nf) ? G.fates[idx] : '.';
-    G.sent[dir][serial] = 1; if (f == 'x') G.lost[dir][serial] = 1;
+    G.sent[dir][serial] = 1;
+    /* dropped, or delayed across rounds (a record of a superseded epoch may legitimately be discarded): no delivery obligation */
+    if (f == 'x' || (f >= '1' && f <= '9')) G.lost[dir][serial] = 1;
     mx_actor = e->id;
     int rc = matrixSslEncodeToOutdata(e->ssl, p, PAYLEN);
     if (rc <= 0) { viol("app-send-failed-after-handshake", "%s: matrixSslEncodeToOutdata returned %d for a %d byte payload after the handshake completed", e->name, rc, PAYLEN); G.failed = 1; return; }
